@@ -113,6 +113,12 @@ META = {
         "assumptions": ["PARTIAL: what 'every option that changes the output is declared through flags and reaches encodePayload' means is the translator's def-use reading of cmd/gts/*.go; behaviour depending on the environment (terminal detection, unwritable cache directory) is outside the model",
                         "hashes are abstract: the theorem concludes equality OR an explicit digest collision"],
     },
+    "C15": {
+        "sections": ["Arith.Abs", "Arith.Min", "Arith.Max"],
+        "rule": "the gts binary built from the tree on a generated 60-base GenBank record with 6 features (nested, overlapping, joined, complement strand), linear and circular, x 18 locators (points, ranges, complement ranges, selectors matching 0..2 features, each with and without modifiers incl. zero-length and out-of-hull ones) x {delete, delete -e, insert, insert -e, infix, infix -e, rotate, split, extract, extract -v, extract -F fasta}: stdout parsed back with seqio and compared (feature tables and residues) with the model's plan applied to the parsed input and the regions the locator resolves to. Oracle: union removed, one guest per head in input coordinates, pieces concatenate (circular: a rotation to a cut), first site at index 0, extracted subsequences in order without duplicates, -v stretches.",
+        "assumptions": ["PARTIAL: option parsing, file I/O and the locator resolution are exercised, not modelled (the regions are resolved by the implementation and handed to the model)",
+                        "theorems are about residues of feature-free records; features in the plans are covered by the correspondence"],
+    },
 }
 
 
